@@ -97,7 +97,12 @@ Stream == /\ conn = "streaming"
              /\ faofsz' = faofsz + CmdSz /\ sent' = sent + 1
              /\ caughtUp' = (caughtUp \/ faofsz + CmdSz >= lsizeAtConnect)
           /\ UNCHANGED <<llog, conn, pos, lsizeAtConnect, faults, hist, meta, re>>
-LWrite(c) == /\ Len(llog) < MaxLeader /\ llog' = Append(llog, c)
+\* the assumption under which a checksum PROBE can stand for a comparison (module header): once the follower's log differs
+\* from the leader's, every later position differs too.  A leader write that would make the logs agree again behind
+\* a difference is outside the model.
+Diverged == \E j \in 1..Len(llog) : j <= Len(flog) /\ flog[j] # llog[j]
+KeepsDivergenceMonotone(c) == (Diverged /\ Len(llog) < Len(flog)) => c # flog[Len(llog) + 1]
+LWrite(c) == /\ Len(llog) < MaxLeader /\ KeepsDivergenceMonotone(c) /\ llog' = Append(llog, c)
              /\ hist' = Append(hist, "lwrite")
              /\ UNCHANGED <<flog, fmem, faofsz, conn, pos, sent, lsizeAtConnect, caughtUp, faults, meta, re>>
 ConnDrop == /\ conn # "down" /\ faults < MaxFaults /\ faults' = faults + 1
